@@ -22,6 +22,7 @@ pub fn dispatch(op: &str, case: &Value) -> Value {
         "response_headers" => op_response_headers(case),
         "ws_handshake" => op_ws_handshake(case),
         "typed_request" => op_typed_request(case),
+        "openapi" => op_openapi(case),
         _ => json!({"error": format!("unknown op {}", op)}),
     }
 }
@@ -873,4 +874,58 @@ fn op_typed_request(case: &Value) -> Value {
         Some(r) => json!({"status": r.status, "entered": entered, "body": serde_json::from_slice::<Value>(&r.body).unwrap_or(Value::Null),
                           "x_request_id": r.header_all("x-request-id")}),
     }
+}
+
+// ---------------------------------------------------------------------------------- C06 (document level, native witness)
+/// {"op":"openapi","endpoints":[{id,method,path(literals only),versions,visible}],"orders":[[..],..],"versions":[..]}
+/// -> per version: operations [[path, METHOD, id]], identical across orders / repeated generation, all $refs resolve
+fn op_openapi(case: &Value) -> Value {
+    let eps = case["endpoints"].as_array().cloned().unwrap_or_default();
+    let orders: Vec<Vec<usize>> = case["orders"].as_array().unwrap().iter()
+        .map(|o| o.as_array().unwrap().iter().map(|x| x.as_u64().unwrap() as usize).collect()).collect();
+    let versions: Vec<semver::Version> = case["versions"].as_array().unwrap().iter().map(|v| semver::Version::parse(v.as_str().unwrap()).unwrap()).collect();
+    let mut per_version = vec![];
+    let (mut same_across_orders, mut same_twice, mut refs_resolve) = (true, true, true);
+    for v in &versions {
+        let mut docs: Vec<Vec<u8>> = vec![];
+        for order in &orders {
+            let mut api = ApiDescription::<()>::new();
+            for &i in order {
+                let e = crate::make_endpoint(&eps[i]).expect("endpoint");
+                if let Err(e) = api.register(e) { return json!({"error": format!("register: {:?}", e)}); }
+            }
+            let mut a = vec![];
+            api.openapi("t", v.clone()).write(&mut a).unwrap();
+            let mut b = vec![];
+            api.openapi("t", v.clone()).write(&mut b).unwrap();
+            if a != b { same_twice = false; }
+            docs.push(a);
+        }
+        if docs.iter().any(|d| *d != docs[0]) { same_across_orders = false; }
+        let doc: Value = serde_json::from_slice(&docs[0]).unwrap();
+        let mut ops = vec![];
+        if let Some(paths) = doc["paths"].as_object() {
+            for (p, item) in paths {
+                for (m, op) in item.as_object().unwrap() {
+                    ops.push(json!([p, m.to_uppercase(), op["operationId"]]));
+                }
+            }
+        }
+        // every "$ref" must resolve inside the document
+        fn walk(v: &Value, doc: &Value, ok: &mut bool) {
+            match v {
+                Value::Object(o) => {
+                    if let Some(Value::String(r)) = o.get("$ref") {
+                        if let Some(ptr) = r.strip_prefix('#') { if doc.pointer(ptr).is_none() { *ok = false; } } else { *ok = false; }
+                    }
+                    for x in o.values() { walk(x, doc, ok); }
+                }
+                Value::Array(a) => { for x in a { walk(x, doc, ok); } }
+                _ => {}
+            }
+        }
+        walk(&doc, &doc, &mut refs_resolve);
+        per_version.push(json!({"version": v.to_string(), "operations": ops}));
+    }
+    json!({"per_version": per_version, "same_across_orders": same_across_orders, "same_twice": same_twice, "refs_resolve": refs_resolve})
 }
